@@ -7,6 +7,7 @@
  *   B = 16 hex digits (IEEE double)      L = decimal long
  *   get_rdpe F | get_2dl F | size_2 F | get_d F | get_d_2exp F | get_cdpe F F | rmod F F
  *   set_rdpe prec B L | set_2dl prec B L | set_d prec B | set_cdpe prec B L B L | rdpe_set_d B | rdpe_set_2dl B L
+ *   get_cplx F F | set_cplx prec B B
  *   mul_2exp F L | div_2exp F L | roundtrip prec B
  *   ro <get_rdpe|get_2dl|size_2|get_cdpe|rmod|get_d|get_d_2exp> F [F]   the source struct lies in a read-only page:
  *                                                  prints "SEGV" if the call stores into it
@@ -110,6 +111,17 @@ int main (void)
           rdpe_Mnt (cdpe_Re (cd)) = dbits (t[2]); rdpe_Esp (cdpe_Re (cd)) = atol (t[3]);
           rdpe_Mnt (cdpe_Im (cd)) = dbits (t[4]); rdpe_Esp (cdpe_Im (cd)) = atol (t[5]);
           mpc_set_cdpe (c, cd);
+          printf ("OK "); putf (mpc_Re (c)); printf (" | "); putf (mpc_Im (c)); printf ("\n");
+        }
+      else if (IS ("get_cplx"))
+        {
+          mpc_t c; cplx_t x; mk (mpc_Re (c), t[1], t[2], t[3], t[4]); mk (mpc_Im (c), t[5], t[6], t[7], t[8]);
+          mpc_get_cplx (x, c); printf ("OK "); putd (cplx_Re (x)); printf (" "); putd (cplx_Im (x)); printf ("\n");
+        }
+      else if (IS ("set_cplx"))
+        {
+          mpc_t c; cplx_t x; mk (mpc_Re (c), t[1], "1", "7", "deadbeef"); mk (mpc_Im (c), t[1], "-1", "-3", "beef");
+          cplx_set_d (x, dbits (t[2]), dbits (t[3])); mpc_set_cplx (c, x);
           printf ("OK "); putf (mpc_Re (c)); printf (" | "); putf (mpc_Im (c)); printf ("\n");
         }
       else if (IS ("rdpe_set_d")) { rdpe_set_d (r, dbits (t[1])); printf ("OK "); putr (r); printf ("\n"); }
